@@ -5,6 +5,7 @@ import (
 	"math/rand"
 	"net/url"
 	"sync"
+	"sync/atomic"
 	"time"
 
 	"github.com/anishathalye/porcupine"
@@ -21,6 +22,9 @@ type c18World struct {
 	caches []string          // cache names
 	addrs  map[string]string // cache -> server addr
 	stores map[string]*hx.MemStore
+	// store latencies in nanoseconds (0 = none)
+	slowDelete atomic.Int64
+	slowSet    atomic.Int64
 }
 
 func newC18World(r *hx.Run) *c18World {
@@ -36,7 +40,21 @@ func newC18World(r *hx.Run) *c18World {
 			cc := config.CacheConfig{Name: name, Size: 100000, HitForPass: "3s"}
 			if i > 0 {
 				cc.Store = fmt.Sprintf("mem://c18/%d/%s", r.Seed, name)
-				cw.stores[name] = hx.NewMemStore(cc.Store)
+				ms := hx.NewMemStore(cc.Store)
+				ms.Script = func(op, key string, cur []byte) hx.StoreFault {
+					switch op {
+					case "delete":
+						if d := cw.slowDelete.Load(); d > 0 {
+							return hx.StoreFault{Kind: "delay", Delay: time.Duration(d)}
+						}
+					case "set":
+						if d := cw.slowSet.Load(); d > 0 {
+							return hx.StoreFault{Kind: "delay", Delay: time.Duration(d)}
+						}
+					}
+					return hx.StoreFault{}
+				}
+				cw.stores[name] = ms
 			}
 			cfg.Caches = append(cfg.Caches, cc)
 			addr := srvAddr(ports[i])
@@ -248,6 +266,73 @@ func c18Directed(r *hx.Run, cw *c18World, ps *plans, rnd *rand.Rand, n int) {
 	}
 }
 
+// c18SlowStore: purges against a store whose delete (or set) is slow
+func c18SlowStore(r *hx.Run, cw *c18World, ps *plans, rnd *rand.Rand, n int) {
+	for i := 0; i < n && !r.TooMany(); i++ {
+		cn := []string{"pb", "pc"}[i%2]
+		uri := fmt.Sprintf("/c18s/%d/%d", r.Seed, i)
+		key := c18Key(uri)
+		ps.set(uri, &plan{Seq: []ans{{Kind: "cacheable", T: 500}}})
+		rq := hx.Req{Addr: cw.addrs[cn], Host: c18Host, URI: uri, Timeout: 20 * time.Second}
+		cs := map[string]interface{}{"uri": uri, "cache": cn}
+		if i%4 < 2 {
+			// (a) slow delete: a lookup arrives while the purge is between LRU removal and the end of the store delete
+			first := cw.Cl.Do(rq)
+			if first.Label != "fetching" {
+				r.Inconclusive("C18 slow store: first request not a fetch")
+				continue
+			}
+			cw.slowDelete.Store(int64(60 * time.Millisecond))
+			base := cw.Pts.Count("purge.removed")
+			pdone := make(chan *hx.Result, 1)
+			go func() { pdone <- cw.purge(key, cn) }()
+			hx.WaitUntil(5*time.Second, func() bool { return cw.Pts.Count("purge.removed") > base })
+			during := cw.Cl.Do(rq) // overlaps the purge: either order is fine
+			pr := <-pdone
+			cw.slowDelete.Store(0)
+			after := cw.Cl.Do(rq)
+			r.Eval(1)
+			r.Add("lookups_during_slow_store_delete", 1)
+			cs["variant"] = "lookup_during_slow_delete"
+			if pr.Err != nil || pr.Status != 204 || during.Err != nil || after.Err != nil {
+				r.Violate("purge_failed", map[string]string{"variant": "slow_delete"}, "purge or request failed with a slow store delete", map[string]interface{}{"purge": pr.Brief(), "during": during.Brief(), "after": after.Brief()}, cs)
+				continue
+			}
+			if after.Label == "hit" && after.FetchID == first.FetchID {
+				r.Violate("purged_version_served_after_purge_completed", map[string]string{"variant": "slow_delete"}, "a request issued after the purge had completed is answered from the purged version (it was reloaded from the store while the delete was pending)", map[string]interface{}{"first": first.Brief(), "during_purge": during.Brief(), "after_purge": after.Brief()}, cs)
+				continue
+			}
+			r.Distinct(fmt.Sprintf("slow_delete %s during=%s", cn, during.Label))
+		} else {
+			// (b) slow set: purge right after the fill; the persisted copy must not reappear
+			cw.slowSet.Store(int64(40 * time.Millisecond))
+			first := cw.Cl.Do(rq)
+			pr := cw.purge(key, cn)
+			cw.slowSet.Store(0)
+			time.Sleep(90 * time.Millisecond)
+			_, have := cw.stores[cn].Peek(key)
+			after := cw.Cl.Do(rq)
+			r.Eval(1)
+			r.Add("purges_right_after_fill_with_slow_store_set", 1)
+			cs["variant"] = "purge_right_after_fill_slow_set"
+			if first.Err != nil || pr.Err != nil || pr.Status != 204 || after.Err != nil {
+				r.Violate("purge_failed", map[string]string{"variant": "slow_set"}, "purge or request failed with a slow store set", nil, cs)
+				continue
+			}
+			if have {
+				r.Violate("persisted_copy_survives_purge", map[string]string{"variant": "slow_set"}, "the persisted copy reappeared after the purge had completed (late store write)", map[string]interface{}{"first": first.Brief(), "after": after.Brief()}, cs)
+				continue
+			}
+			if after.Label == "hit" && after.FetchID == first.FetchID {
+				r.Violate("purged_version_served_after_purge_completed", map[string]string{"variant": "slow_set"}, "request after the purge answered from the purged version", map[string]interface{}{"first": first.Brief(), "after": after.Brief()}, cs)
+				continue
+			}
+			r.Distinct(fmt.Sprintf("slow_set %s", cn))
+		}
+		ps.del(uri)
+	}
+}
+
 // c18Porcupine: concurrent requests, purges, clock advances; per (cache,key) linearizability
 func c18Porcupine(r *hx.Run, cw *c18World, ps *plans, rnd *rand.Rand, n int) {
 	for hi := 0; hi < n && !r.TooMany(); hi++ {
@@ -369,7 +454,7 @@ func c18Porcupine(r *hx.Run, cw *c18World, ps *plans, rnd *rand.Rand, n int) {
 
 func c18(r *hx.Run) {
 	r.MaxViol = 6 // violations here usually cost a watchdog period each
-	r.Rule = "three caches (one without store, two with scripted in-memory stores) behind three servers sharing the client-supplied Host; purges through the real admin DELETE /cache. basics: fetch+hit on every cache, one purge variant {named, unnamed, absent cache, absent key, named twice}, store records inspected, next request per cache and for a neighbour key judged by the entry model; directed: purge while the fetch is held at the origin with 1-5 parked waiters (must return before the release, nobody stranded); porcupine: 6 clients + 2 purgers + clock advancer, per (cache,key) linearizability. Non-trivial = case with a purge of a present key; distinct = variant/partition."
+	r.Rule = "three caches (one without store, two with scripted in-memory stores) behind three servers sharing the client-supplied Host; purges through the real admin DELETE /cache. basics: fetch+hit on every cache, one purge variant {named, unnamed, absent cache, absent key, named twice}, store records inspected, next request per cache and for a neighbour key judged by the entry model; slow store: a lookup issued while the purge is between LRU removal and the end of a slow store delete, and a purge right after a fill whose store write is slow (afterwards the key must not be answered from the purged version and the record must be gone); directed: purge while the fetch is held at the origin with 1-5 parked waiters (must return before the release, nobody stranded); porcupine: 6 clients + 2 purgers + clock advancer, per (cache,key) linearizability. Non-trivial = case with a purge of a present key; distinct = variant/partition."
 	r.Assume = []string{"virtual clock, hook points", "the in-memory store stands for the persistent store (badger itself in C08)", "-race build"}
 	rnd := rand.New(rand.NewSource(r.Seed))
 	cw := newC18World(r)
@@ -379,6 +464,7 @@ func c18(r *hx.Run) {
 	cw.Farm.SetScript(ps.script)
 	c18Basics(r, cw, ps, rnd, r.Pick(100, 3000))
 	c18Directed(r, cw, ps, rnd, r.Pick(40, 1000))
+	c18SlowStore(r, cw, ps, rnd, r.Pick(24, 400))
 	cw.Pts.SetJitter([]string{"disp.got", "purge.removed", "get.registered", "get.woken"}, 200)
 	c18Porcupine(r, cw, ps, rnd, r.Pick(60, 2500))
 	r.Set("points_hit", cw.Pts.Counts())
